@@ -1,8 +1,146 @@
-(* C19 - placeholder while the proofs are being written *)
-From Coq Require Import NArith List.
-From PyIpmi Require Import Lib.Res Lib.Bytes Model.Shell Model.IpmitoolIf.
+(* C19 - the ipmitool back-end passes requests and credentials verbatim and reads replies
+   faithfully.  Statements only; every proof is [exact <lemma>].
+   [sh_lex] (Model/Shell.v) is the model of the word splitting of /bin/sh -c, validated against
+   the real shell on every run; [cmd_of], [ping_cmd_of], [parse_output], [receive]
+   (Model/IpmitoolIf.v) model pyipmi/interfaces/ipmitool.py after the fixes F19, F19b, F19c;
+   [spec_argv], [format_lines], [rsp_line], ... (Model/IpmitoolSpec.v) are the specification. *)
+From Coq Require Import String Ascii.
+From Coq Require Import NArith List Bool.
+From PyIpmi Require Import Lib.Res Lib.Bytes Model.Shell Model.IpmitoolIf Model.IpmitoolSpec
+  Proofs.ShellProofs Proofs.IpmitoolProofs Proofs.IpmitoolParseProofs.
 Import ListNotations.
 Open Scope N_scope.
-Theorem C19_placeholder : sh_lex [] = Words [] false.
-Proof. reflexivity. Qed.
-Print Assumptions C19_placeholder.
+
+(* For EVERY user name and password without a NUL byte - every shell metacharacter, any
+   length, any non-ASCII byte - the shell started by Popen(cmd, shell=True) runs exactly one
+   program, ipmitool, and the two strings arrive as the single arguments after -U and -P,
+   identical to the configured strings; nothing is expanded, split or executed. *)
+Theorem C19_argv : forall c user pw t lun netfn raw,
+  (c_type c = Lan \/ c_type c = Lanplus) -> c_auth c = AuthPassword user pw ->
+  nonul user = true -> nonul pw = true ->
+  plain_word (c_host c) = true -> (c_priv c = 2 \/ c_priv c = 3 \/ c_priv c = 4) ->
+  wf_target t = true -> bytes_ok raw = true ->
+  exists cmd, cmd_of c t lun netfn raw = Ok cmd /\
+    sh_lex cmd = Words ([B "ipmitool"; B "-I"; iftype_name (c_type c); B "-H"; c_host c;
+                         B "-p"; dec (c_port c); B "-L"; level_name (c_priv c)] ++
+                        cipher_args (c_cipher c) ++ [B "-U"; user; B "-P"; pw] ++
+                        target_args t ++ [B "-l"; dec lun; B "raw"] ++ map ox2 (netfn :: raw)) true.
+Proof. exact argv_credentials. Qed.
+Print Assumptions C19_argv.
+
+(* the statement above is FALSE for the code before fix F19 (no escaping inside the double
+   quotes): the password $x reaches the shell as a parameter expansion *)
+Theorem C19_argv_before_F19_refuted :
+  wf_config witness_cfg = true /\ wf_target witness_tgt = true /\
+  exists cmd, cmd_of_legacy witness_cfg witness_tgt 0 6 [1] = Ok cmd /\ sh_lex cmd = Expansion.
+Proof. exact legacy_refuted. Qed.
+Print Assumptions C19_argv_before_F19_refuted.
+
+(* the repair does not change the command line of any user/password free of backslash, double quote,
+   dollar and backquote - in particular not the strings pinned by tests/interfaces/test_ipmitool.py *)
+Theorem C19_escape_identity : forall s,
+  forallb (fun c => negb (dq_special c)) s = true -> dq_escape s = s.
+Proof. exact dq_escape_id. Qed.
+Print Assumptions C19_escape_identity.
+
+(* every interface type (lan, lanplus, serial-terminal, open), host, port, privilege level,
+   cipher, authentication none/password, target address or routing of depth 1..3, LUN, netfn
+   and raw bytes appear as the corresponding options and operands; stderr joins stdout
+   except on the serial command line *)
+Theorem C19_options : forall c t lun netfn raw,
+  wf_config c = true -> wf_target t = true -> bytes_ok raw = true ->
+  exists cmd, cmd_of c t lun netfn raw = Ok cmd /\
+              sh_lex cmd = Words (spec_argv c t lun netfn raw) (spec_err2out c).
+Proof. exact cmd_argv. Qed.
+Print Assumptions C19_options.
+
+(* what [spec_argv] prescribes for targets: plain address -> -t; depth 1 -> nothing;
+   depth 2 -> -t/-b; depth 3 -> -T/-B (transit) and -t/-b (target) *)
+Theorem C19_target_options : forall a ad s0 s1 s2 c0 c1 k0 k1, a <> 0 ->
+  target_args (Some (mkTarget (Some a) None)) = [B "-t"; ox2 a] /\
+  target_args (Some (mkTarget ad (Some [mkRoute s0 c0]))) = [] /\
+  target_args (Some (mkTarget ad (Some [mkRoute s0 (Some k0); mkRoute s1 c1]))) =
+    [B "-t"; ox2 s1; B "-b"; dec k0] /\
+  target_args (Some (mkTarget ad (Some [mkRoute s0 (Some k0); mkRoute s1 (Some k1); mkRoute s2 c1]))) =
+    [B "-T"; ox2 s1; B "-B"; dec k0; B "-t"; ox2 s2; B "-b"; dec k1].
+Proof. exact target_args_shape. Qed.
+Print Assumptions C19_target_options.
+
+(* rmcp_ping builds its command line with the same quoting *)
+Theorem C19_ping_argv : forall c, wf_ping c = true ->
+  exists cmd, ping_cmd_of c = Ok cmd /\ sh_lex cmd = Words (spec_ping_argv c) false.
+Proof. exact ping_argv. Qed.
+Print Assumptions C19_ping_argv.
+
+(* the bytes ipmitool prints come back unchanged behind completion code 0: for every reply
+   and ANY wrapping into non-empty lines ... *)
+Theorem C19_parse_format : forall chunks,
+  forallb bytes_ok chunks = true -> forallb (fun ch => negb (bytes_eqb ch [])) chunks = true ->
+  parse_output (format_lines chunks) =
+    Ok (None, match concat chunks with [] => None | bs => Some bs end).
+Proof. exact parse_format. Qed.
+Print Assumptions C19_parse_format.
+
+(* ... in particular ipmitool's own 16 bytes per line, for every reply length *)
+Theorem C19_parse_format16 : forall bs, bytes_ok bs = true ->
+  parse_output (format16 bs) = Ok (None, match bs with [] => None | _ => Some bs end) /\
+  receive (format16 bs) 0 = Ok (0 :: bs).
+Proof. exact (fun bs H => conj (parse_format16 bs H) (receive_format16 bs H)). Qed.
+Print Assumptions C19_parse_format16.
+
+(* a "rsp=0xNN" failure line yields exactly that completion code.
+   PARTIAL: the full statement has no hypotheses on the line besides cc < 256 and a text
+   taken from ipmitool's table; here the three earlier branches of the parser loop (the
+   word "failed", the time-out pattern, "Unable to establish") are assumed not to fire on
+   the line; that they do not is proved only by computation for every completion code x
+   ipmitool's texts x sample header fields (C19_rsp_line_sweep), not for all field values. *)
+Theorem C19_rsp_line_partial : forall chn netfn lun cmd cc text rc,
+  cc < 256 -> (rc =? 127) = false -> no_nl text = true -> contains (B "rsp=0x") text = false ->
+  contains (B "failed") (rsp_body chn netfn lun cmd cc text) = false ->
+  timeout_match (rsp_body chn netfn lun cmd cc text) = false ->
+  contains (B "Unable to establish") (rsp_body chn netfn lun cmd cc text) = false ->
+  receive (rsp_line chn netfn lun cmd cc text) rc = Ok [cc].
+Proof. exact rsp_line_mapping. Qed.
+Print Assumptions C19_rsp_line_partial.
+
+Theorem C19_rsp_line_sweep :
+  forallb (fun cc => forallb (fun f => forallb (rsp_case cc f) cc_texts) field_samples) all_bytes = true.
+Proof. exact rsp_sweep. Qed.
+Print Assumptions C19_rsp_line_sweep.
+
+(* time-outs, connection failures and over-long passwords map to their specific errors *)
+Theorem C19_error_mapping :
+  (forall chn netfn lun cmd rc, (rc =? 127) = false ->
+     receive (timeout_line chn netfn lun cmd) rc = Err TimeoutError) /\
+  forallb (fun n => forallb (msg_case ConnectionError n) connection_msgs) preceding_noise = true /\
+  forallb (fun n => forallb (msg_case LongPasswordError n) long_password_msgs) preceding_noise = true /\
+  (forall rc, rc <> 0 -> rc <> 127 -> ping_result rc = Err TimeoutError) /\ ping_result 0 = Ok tt.
+Proof. exact error_mapping. Qed.
+Print Assumptions C19_error_mapping.
+
+(* the first output line decides, in this order (general form of the error mapping) *)
+Theorem C19_error_rules : forall line more rc, no_nl line = true -> (rc =? 127) = false ->
+  contains (B "failed") line = false ->
+  (timeout_match line = true -> receive (line ++ 10 :: more) rc = Err TimeoutError) /\
+  (timeout_match line = false -> contains (B "Unable to establish") line = true ->
+     receive (line ++ 10 :: more) rc = Err ConnectionError) /\
+  (timeout_match line = false -> contains (B "Unable to establish") line = false ->
+     cc_match line = None -> contains (B "Could not open device") line = false ->
+     contains (B "password is longer than") line = true ->
+     receive (line ++ 10 :: more) rc = Err LongPasswordError).
+Proof. exact error_rules. Qed.
+Print Assumptions C19_error_rules.
+
+(* non-vacuity: the hypotheses of C19_argv / C19_options hold for the configuration of the
+   test-suite with a hostile password, and the conclusion computes *)
+Example C19_hypotheses_satisfiable :
+  let c := mkConfig Lanplus (Some 3) (B "10.0.1.1") 623 4
+             (AuthPassword (B "admin") (B "$(reboot) `x` ""q"" \ ; * 'z'")) [] 0 in
+  let t := Some (mkTarget None (Some [mkRoute 32 (Some 0); mkRoute 130 (Some 7); mkRoute 114 None])) in
+  wf_config c = true /\ wf_target t = true /\
+  exists cmd, cmd_of c t 0 6 [1] = Ok cmd /\
+    sh_lex cmd = Words (map B ["ipmitool"; "-I"; "lanplus"; "-H"; "10.0.1.1"; "-p"; "623"; "-L";
+                               "ADMINISTRATOR"; "-C"; "3"; "-U"; "admin"; "-P";
+                               "$(reboot) `x` ""q"" \ ; * 'z'"; "-T"; "0x82"; "-B"; "0"; "-t"; "0x72";
+                               "-b"; "7"; "-l"; "0"; "raw"; "0x06"; "0x01"]%string) true.
+Proof. split; [reflexivity|]. split; [reflexivity|]. eexists. split; vm_compute; reflexivity. Qed.
